@@ -38,8 +38,9 @@ MANIFEST = {
             "HMAC of CPython/OpenSSL), the harness' own reference implementations (validated against the published vectors on every run), "
             "the OpenSSL CLI for 3DES-CBC. Block ciphers and hashes are PARAMETERS of the proved theorems (only output lengths and D(E b)=b are "
             "assumed); for the AES core (rijndael.py) the GENERATED tables S, Si, T1..T8, U1..U4, rcon are proved to be the FIPS-197 S-box, its inverse, "
-            "the (Inv)MixColumns columns and x^i over the whole tables, but the equality of the table-driven rounds / key schedule with the "
-            "FIPS-197 Cipher for all keys is NOT proved: an executable Lean transliteration and an executable Lean FIPS-197 are both tied by "
+            "the (Inv)MixColumns columns and x^i over the whole tables, and the table-driven ENCRYPTION rounds on any given key schedule are proved to be "
+            "the FIPS-197 Cipher with those round keys (aes_encrypt_rounds_eq_spec_partial); NOT proved: the key-schedule loops = KeyExpansion and the "
+            "decryption direction (equivalent inverse cipher) — for those an executable Lean transliteration and an executable Lean FIPS-197 are both tied by "
             "correspondence (random blocks, FIPS-197 appendix C, an independent Python FIPS-197); single DES is not modelled at all and "
             "3DES-CBC is tied against the OpenSSL CLI. "
             "Named excluded regions (hypotheses): ChaCha20 block counter above 2^32 (code neither wraps nor raises); CTR counter field reaching "
@@ -1955,7 +1956,7 @@ def run(ctx):
                        "ChaCha20 block counter stays below 2^32 (code neither wraps nor raises beyond; model follows the code there)"]
     import shutil
     ctx.extra["openssl_cli_for_3des"] = bool(shutil.which("openssl") or __import__("os").path.exists("/root/miniconda/bin/openssl"))
-    ctx.extra["not_proved"] = ["AES rounds/key schedule = FIPS-197 Cipher for all keys (tables proved, rest by correspondence)",
+    ctx.extra["not_proved"] = ["AES key schedule = KeyExpansion and AES decryption = InvCipher (tables and encryption rounds proved, rest by correspondence)",
                                "single DES (not modelled; 3DES-CBC against OpenSSL)"]
     W = Work(ctx)
     for _rep in range(ctx.pick(1, 3)):          # thorough: three passes with fresh random keys / messages / splits
